@@ -13,6 +13,7 @@ import Frp.Engines.Visitor
 import Frp.Engines.Wire
 import Frp.Engines.Group
 import Frp.Engines.Http
+import Frp.Engines.Peer
 /-! Registry of driver engines (one line per engine). -/
 namespace Frp.Engines
 open Frp.Proto
@@ -33,5 +34,6 @@ def all : List (String × Engine) :=
   , ("wire", wire)
   , ("group", group)
   , ("http", http)
+  , ("peer", peer)
   ]
 end Frp.Engines
